@@ -147,8 +147,13 @@ func (fc *FuncCtx) checkGuard(fr *Frame, st *State, p PlaceV, pos token.Pos, wri
 			continue
 		}
 		key := "L!O!" + typeKey(t) + "." + g.Lock
-		held := fc.heldTerm(st, key, p.Idx[0])
-		if stt, ok := t.Underlying().(*types.Struct); ok {
+		var held string
+		if lt, lf := fc.eng.foreignLock(g); lt != nil {
+			held = fc.foreignHeld(st, lt, lf)
+		} else {
+			held = fc.heldTerm(st, key, p.Idx[0])
+		}
+		if stt, ok := t.Underlying().(*types.Struct); ok && !strings.Contains(g.Lock, ".") {
 			for i := 0; i < stt.NumFields(); i++ {
 				if stt.Field(i).Name() == g.Lock {
 					if _, isPtr := stt.Field(i).Type().Underlying().(*types.Pointer); isPtr {
@@ -174,6 +179,23 @@ func (fc *FuncCtx) checkGuard(fr *Frame, st *State, p PlaceV, pos token.Pos, wri
 		fc.oblige(fr, st, "guard."+g.Type+"."+g.Field, "", held, pos, acc+" of "+g.Type+"."+g.Field+" happens with "+g.Lock+" held")
 		fc.props = saved
 	}
+}
+
+// foreignHeld: some lock LT.lf is held by this activation (one of those it acquired, or the one its callers hold when
+// it is a lock-free accessor).
+func (fc *FuncCtx) foreignHeld(st *State, lt types.Type, lf string) string {
+	key := "L!O!" + typeKey(lt) + "." + lf
+	var cs []string
+	for _, h := range st.heldLocks {
+		i := strings.LastIndex(h, "|")
+		if h[:i] == key {
+			cs = append(cs, fc.heldTerm(st, key, h[i+1:]))
+		}
+	}
+	if len(cs) == 0 {
+		return "false"
+	}
+	return tOr(cs...)
 }
 
 // checkGlobalGuard: `guarded global x by l` — package-level variable x is only touched with the package-level lock l
@@ -256,6 +278,20 @@ func (fc *FuncCtx) blockingOp(fr *Frame, st *State, kind string, ins ssa.Instruc
 }
 
 func (fc *FuncCtx) selectOp(fr *Frame, st *State, x *ssa.Select, idx string) {
+	if fr.con != nil && fr.con.Flags["watches"] != "" {
+		// `flag watches=a,b`: some select of this function has a receive case on each named channel (recorded here,
+		// judged when the function has been executed)
+		if fc.watched == nil {
+			fc.watched = map[string]bool{}
+		}
+		for _, w := range strings.Split(fr.con.Flags["watches"], ",") {
+			for _, s := range x.States {
+				if w != "" && s.Dir == types.RecvOnly && chanNamed(s.Chan, w) {
+					fc.watched[w] = true
+				}
+			}
+		}
+	}
 	if fr.con == nil || fr.con.Flags["concurrent"] == "" {
 		return
 	}
@@ -358,7 +394,12 @@ func chanNamed(v ssa.Value, name string) bool {
 			if a, ok := x.X.(*ssa.Alloc); ok {
 				return a.Comment == name
 			}
+			if fv, ok := x.X.(*ssa.FreeVar); ok {
+				return fv.Name() == name
+			}
 		}
+	case *ssa.FreeVar:
+		return x.Name() == name
 	case *ssa.Call:
 		if x.Call.IsInvoke() {
 			return x.Call.Method.Name() == name
@@ -373,4 +414,23 @@ func chanNamed(v ssa.Value, name string) bool {
 // atMake: `at call make assert ...` with `size` bound to the requested length.
 func (fc *FuncCtx) atMake(fr *Frame, st *State, x *ssa.MakeSlice, ln string) {
 	fc.atCallClauses(fr, st, nil, "make", "make", map[string]Value{"size": Scalar{ln, fc.intSort(), types.Typ[types.Int]}}, x.Pos())
+}
+
+// watchObligations: `flag watches=a,b` — the function stops when any of the named channels fires: one of its selects
+// has a receive case on each of them (structural).
+func (fc *FuncCtx) watchObligations(fr *Frame) {
+	if fr.con == nil || fr.con.Flags["watches"] == "" {
+		return
+	}
+	for _, w := range strings.Split(fr.con.Flags["watches"], ",") {
+		if w == "" {
+			continue
+		}
+		o := &Obligation{Name: fr.prefix + "/block.watches." + w, Kind: "block.watches", Func: fr.prefix, Goal: "true", PC: "true", Unit: fc.u, Props: fc.props, Structural: true, StructOK: fc.watched[w],
+			Desc: "a select of this function has a receive case on " + w + " (it stops when that channel fires)"}
+		if !fc.watched[w] {
+			o.Note = "no select receives from " + w
+		}
+		fc.u.Obls = append(fc.u.Obls, o)
+	}
 }
